@@ -5,7 +5,7 @@ import os
 VERIF = os.path.dirname(os.path.dirname(os.path.abspath(__file__)))
 
 LEDGER_TECH = ("TLA+ spec Rp2Ledger model-checked with TLC (MC_Ledger over Gen_Hist slices; for C01/C02/C09 also Rp2Engine, the matching algorithm as implemented, "
-               "with its output compared to rp2's); TLC-generated histories replayed into rp2's compute_tax and into the entry points (method from -m / config schedule, "
+               "with its output compared to rp2's; for C02 and C07 also the inductive invariants of Ind_Pairing / Ind_Balances over unbounded amounts, discharged by Apalache); TLC-generated histories replayed into rp2's compute_tax and into the entry points (method from -m / config schedule, "
                "window, -n, spreadsheet input); every recorded execution validated by TLC against the spec (Trace_Ledger, total verdicts per clause; for C05-C07 also the "
                "written reports against Rp2Docs via Trace_Docs)")
 LEDGER_NOTE = ("Trusted: the abstraction alpha from rp2's decimals to lattice integers (exact fractions, 1e-15 relative), the concretiser "
